@@ -47,7 +47,7 @@ IAM_METHODS = [m for a, m in ALL_METHODS if a == "google.iam.v1.IAMPolicy"]
 # ------------------------------------------------------------------ host APIs
 PACKAGES = [("google.example.widgets.v1", "widgets.example.com"), ("google.cloud.gizmo.v1beta1", "gizmo.googleapis.com"),
             ("acme.depot.v2", "depot.acme.test")]
-HOSTS = ["min", "lro", "two", "own_set", "own_all_second", "own_get_lro"]
+HOSTS = ["min", "lro", "two", "own_set", "own_all_second", "own_get_lro", "own_set_second"]
 
 
 def host_api(kind, pkgidx=0):
@@ -73,14 +73,15 @@ def host_api(kind, pkgidx=0):
               lro=("Widget", "MakeWidgetMetadata"))
         services[0][1].append("MakeWidget")
     second = None
-    if kind in ("two", "own_all_second"):
+    if kind in ("two", "own_all_second", "own_set_second"):
         g = f.message("Gadget"); g.field("name", 1, "string")
         gg = f.message("GetGadgetRequest"); gg.field("name", 1, "string")
         second = f.service("Gadgets", host=host)
         second.rpc("GetGadget", gg.fqn, g.fqn, http=("get", "/v1/{name=gadgets/*}"), sigs=["name"])
         services.append(("Gadgets", ["GetGadget"]))
-    own = {"own_set": ["SetIamPolicy"], "own_all_second": list(IAM_METHODS), "own_get_lro": ["GetIamPolicy"]}.get(kind, [])
-    tgt, tidx = (second, 1) if kind == "own_all_second" else (s, 0)
+    own = {"own_set": ["SetIamPolicy"], "own_all_second": list(IAM_METHODS), "own_get_lro": ["GetIamPolicy"],
+           "own_set_second": ["SetIamPolicy"]}.get(kind, [])
+    tgt, tidx = (second, 1) if kind in ("own_all_second", "own_set_second") else (s, 0)
     for m in own:
         out = ".google.iam.v1.TestIamPermissionsResponse" if m == "TestIamPermissions" else ".google.iam.v1.Policy"
         tgt.rpc(m, f".google.iam.v1.{m}Request", out, http=("post", "/v1/{resource=widgets/*}:" + m[0].lower() + m[1:]), body="*")
@@ -297,7 +298,8 @@ def read_stubs(src, class_suffix, own_snake):
 
 
 def read_http_options(src, own_names):
-    """[(Name, [(method, uri, body|None)])] from the _Base<Name> classes of rest_base.py for mixin names (file order)."""
+    """[(Name, [(method, uri, body|None)], has _get_request_body_json)] from the _Base<Name> classes of rest_base.py for
+    mixin names (file order). The body helper must guard on the transcoded request (fail-closed on any other shape)."""
     mixin = {m for _, m in ALL_METHODS} - set(own_names)
     out = []
     for top in _classes(src):
@@ -314,7 +316,13 @@ def read_http_options(src, own_names):
                 if not set(dd) <= {"method", "uri", "body"} or "method" not in dd or "uri" not in dd:
                     raise ValueError(f"{c.name}: option keys {sorted(dd)}")
                 opts.append((dd["method"], dd["uri"], dd.get("body")))
-            out.append((c.name[5:], opts))
+            bj = next((f for f in _funcs(c) if f.name == "_get_request_body_json"), None)
+            if bj is not None:
+                a = [s for s in bj.body if isinstance(s, ast.Assign)]
+                want = "json.dumps(transcoded_request['body']) if 'body' in transcoded_request else None"
+                if len(a) != 1 or ast.unparse(a[0].value) != want:
+                    raise ValueError(f"{c.name}._get_request_body_json computes {ast.unparse(a[0].value) if a else '?'}")
+            out.append((c.name[5:], opts, bj is not None))
     return out
 
 
